@@ -1188,27 +1188,27 @@ pub fn run_c24_instr(ctx: &mut Ctx) {
     let n = ctx.cases(2_500, 125_000);
     ctx.search("set_prices_ix", n, || set_case(false), |c, rec| check_set_prices(c, rec, false));
     for (cl, min) in [
-        ("accepted", 700),
-        ("accepted_several_tokens", 350),
+        ("accepted", 567),
+        ("accepted_several_tokens", 298),
         ("accepted_with_duplicates", 200),
-        ("accepted_with_timestamp_adjustment", 600),
+        ("accepted_with_timestamp_adjustment", 495),
         ("accepted_exactly_at_max_age", 100),
-        ("accepted_exactly_at_max_age_with_adjustment", 80),
-        ("accepted_exactly_at_future_limit", 120),
-        ("accepted_exactly_one_heartbeat_old", 120),
-        ("rejected", 900),
-        ("rejected_only_too_old", 110),
+        ("accepted_exactly_at_max_age_with_adjustment", 68),
+        ("accepted_exactly_at_future_limit", 97),
+        ("accepted_exactly_one_heartbeat_old", 103),
+        ("rejected", 741),
+        ("rejected_only_too_old", 95),
         ("rejected_one_second_past_max_age", 45),
-        ("rejected_too_old_with_adjustment", 90),
+        ("rejected_too_old_with_adjustment", 77),
         ("rejected_only_future", 65),
         ("rejected_one_second_past_future_limit", 55),
-        ("rejected_only_heartbeat", 100),
+        ("rejected_only_heartbeat", 86),
         ("rejected_one_second_past_heartbeat", 60),
         ("rejected_only_deviation", 12),
         ("rejected_only_provider", 18),
         ("rejected_only_feed_id", 14),
         ("rejected_only_foreign_feed", 25),
-        ("rejected_only_not_a_feed_account", 60),
+        ("rejected_only_not_a_feed_account", 48),
         ("rejected_only_missing_feed_account", 16),
         ("rejected_only_unknown_token", 20),
         ("rejected_only_token_disabled", 15),
@@ -1226,11 +1226,11 @@ pub fn run_c29_instr(ctx: &mut Ctx) {
     let n = ctx.cases(2_500, 125_000);
     ctx.search("adjust_ix", n, || set_case(true), |c, rec| check_set_prices(c, rec, true));
     for (cl, min) in [
-        ("accepted", 900),
+        ("accepted", 775),
         ("clamped_max_only", 250),
-        ("clamped_min_only", 250),
+        ("clamped_min_only", 215),
         ("clamped_both", 140),
-        ("clamp_rounded_inwards", 550),
+        ("clamp_rounded_inwards", 482),
         ("adjustable_in_band_unchanged", 400),
         ("accepted_in_band_without_adjustment", 120),
         ("rejected_out_of_band_without_adjustment", 110),
